@@ -34,6 +34,10 @@ def prepare_scratch(prop, groups):
                 attached.append({"group": g, "error": "extraction: " + gen["out"].strip()[-400:]})
                 continue
             shutil.copyfile(gen["rs"], os.path.join(dst, "src", f"verif_frag_{g}.rs"))
+        for (afile, ahar, aname) in info.get("attach_also", []):
+            # helper modules a harness needs in another file of the crate (e.g. to build a struct with private fields)
+            with open(os.path.join(dst, afile), "a") as f:
+                f.write(f'\n#[cfg(kani)]\n#[path = "{os.path.join(VERIF, "kani", ahar)}"]\npub(crate) mod verif_kani_{aname};\n')
         modfile = os.path.join(dst, info["attach"])
         with open(modfile, "a") as f:
             f.write(f'\n#[cfg(kani)]\n#[path = "{hfile}"]\nmod verif_kani_{g};\n')
